@@ -3,7 +3,7 @@
 SPECIFICATION Spec
 CONSTANTS
   Alphabet <- ClsNoCr
-  MaxLen = 4
+  MaxLen = 3
   Depths = {0, 1, 2, 3}
   Modes = {"entity", "cdata"}
   V <- AsIs
